@@ -4,6 +4,7 @@
 // transcript format of drv.c; where a C function answers the same question its answer is printed too
 // (suffix "| c=...") so that the agreement can be checked on the implementation alone.
 #include <cstdio>
+#include <unistd.h>
 #include <cstdlib>
 #include <cstring>
 #include <cinttypes>
@@ -231,6 +232,7 @@ int xx_op(int n, char **tok)
       fputs("R unit\n", out); return 1;
     }
     if(n == 1 && IS("xinit")) { fputs("R unit\n", out); return 1; }
+    if(n == 1 && IS("xclear")) { cx->clear(); fputs("R unit\n", out); return 1; }
     if(n == 3 && IS("xsetfmt"))
     {
       config_setting_t *cs = resolve(tok[1]);
@@ -242,6 +244,13 @@ int xx_op(int n, char **tok)
     if(n == 2 && IS("xwritef")) { char *t = parse_hs(tok[1], NULL); std::string p(t ? t : ""); free(t); cx->writeFile(p.c_str()); fputs("R unit\n", out); return 1; }
   }
   catch(const ConfigException &e) { put_throw(e); return 1; }
-  catch(const std::bad_alloc &) { fputs("R throw bad_alloc\n", out); return 1; }
+  catch(const std::bad_alloc &)
+  {
+    fputs("R throw bad_alloc\n", out);
+#ifdef DRV_FAULT
+    fflush(out); _exit(0);      /* the injected failure was reported as the documented exception: done */
+#endif
+    return 1;
+  }
   return 0;
 }
